@@ -95,17 +95,34 @@ structure FHCall where
   moves : List (Move × Int)
   stack : HStack
 
+/-- one operation on the move ranker: a `FailHigh` call or `Clear()`. -/
+inductive HistOp where
+  | failHigh (c : FHCall)
+  | clear
+
+def HistOp.apply (r : Ranker) : HistOp → Ranker
+  | .failHigh c => Heur.failHigh r c.d c.board c.moves c.stack
+  | .clear => r.clear
+
+/-- the ranker after a sequence of operations on a fresh `NewMoveRanker()`. -/
+def runOps (ops : List HistOp) : Ranker := ops.foldl HistOp.apply Ranker.new
+
 /-- the ranker after a sequence of `FailHigh` calls on a fresh `NewMoveRanker()`. -/
-def runFH (calls : List FHCall) : Ranker :=
-  calls.foldl (fun r c => failHigh r c.d c.board c.moves c.stack) Ranker.new
+def runFH (calls : List FHCall) : Ranker := runOps (calls.map HistOp.failHigh)
 
-theorem foldl_ok (calls : List FHCall) : ∀ (r : Ranker), RankerOK r →
-    RankerOK (calls.foldl (fun r c => failHigh r c.d c.board c.moves c.stack) r) := by
-  induction calls with
+theorem apply_ok {r : Ranker} (h : RankerOK r) (op : HistOp) : RankerOK (op.apply r) := by
+  cases op with
+  | failHigh c => exact failHigh_ok h _ _ _ _
+  | clear => exact ranker_new_ok
+
+theorem foldl_ok (ops : List HistOp) : ∀ (r : Ranker), RankerOK r → RankerOK (ops.foldl HistOp.apply r) := by
+  induction ops with
   | nil => intro r h; exact h
-  | cons c cs ih => intro r h; exact ih _ (failHigh_ok h _ _ _ _)
+  | cons c cs ih => intro r h; exact ih _ (apply_ok h c)
 
-theorem runFH_ok (calls : List FHCall) : RankerOK (runFH calls) := foldl_ok calls _ ranker_new_ok
+theorem runOps_ok (ops : List HistOp) : RankerOK (runOps ops) := foldl_ok ops _ ranker_new_ok
+
+theorem runFH_ok (calls : List FHCall) : RankerOK (runFH calls) := runOps_ok _
 
 /-! ### The ranking functions of an in-range ranker are inside the bands -/
 
@@ -184,5 +201,9 @@ theorem rankOf_bands {r : Ranker} (h : RankerOK r) (b : Board) (st : HStack) : B
     stack, the ranking functions are inside the bands. -/
 theorem bands_reachable (calls : List FHCall) (b : Board) (st : HStack) :
     Bands (Picker.rankOf (runFH calls) b st) := rankOf_bands (runFH_ok calls) b st
+
+/-- …also with `Clear()` calls interleaved. -/
+theorem bands_reachable_ops (ops : List HistOp) (b : Board) (st : HStack) :
+    Bands (Picker.rankOf (runOps ops) b st) := rankOf_bands (runOps_ok ops) b st
 
 end ChessVerif.Proofs.HeurBands
